@@ -122,7 +122,7 @@ CLASSES.update({
                             'section_configurer': Ref('SectionConfigurer')}, nonnull=['section_configurer']),
     'Encoder': dict(bases=['Coder'], module='pybufrkit.encoder',
                     fields={'ignore_declared_length': BOOL, 'compiled_template_manager': Ref('CompiledTemplateManager'), 'tables_root_dir': STR,
-                            'section_configurer': Ref('SectionConfigurer')}, nonnull=['section_configurer']),
+                            'section_configurer': Ref('SectionConfigurer'), 'overrides': DictT(STR, VAL)}, nonnull=['section_configurer', 'overrides']),
 })
 
 
@@ -262,7 +262,9 @@ def sf_poff(eng, ctx, st, args):
     arr = eng.list_arr(st, lst)
     nb = st.hget(E.fkey('nbits', INT))
     t = _poff(arr, nb, k.z)
-    st.assume(t == z3.If(k.z <= 0, I(0), _poff(arr, nb, k.z - 1) + z3.Select(nb, z3.Select(arr, k.z - 1))))
+    for d in range(3):          # the definition is unfolded three levels at every mention (enough for the fixed offsets the code asks for)
+        kk = k.z - d
+        st.assume(_poff(arr, nb, kk) == z3.If(kk <= 0, I(0), _poff(arr, nb, kk - 1) + z3.Select(nb, z3.Select(arr, kk - 1))))
     return SV(INT, t)
 
 
